@@ -175,7 +175,7 @@ def _side_z3(s, X, d):
 def differing_point(rel, rows, names):
     """A point with small denominator where the written relation and the parsed rows disagree."""
     links = link_exprs(rel)
-    for M, d in ((4, 1), (8, 2), (16, 4), (50, 1), (50, 8), (1000, 1), (1000, 4)):
+    for M, d in ((4, 1), (8, 2), (16, 4), (50, 1), (50, 8), (1000, 1), (1000, 4), (100000, 1), (100000, 2)):     # C09 is about all real points: no box
         X = {n: z3.Int(n) for n in names}
         s = z3.Solver()
         for n in names:
@@ -321,6 +321,17 @@ def gen_rel(rng, shape):
         if rng.random() < 0.4:   # same linear part, another constant offset
             lhs[1] = {"t": "abs", "k": k2, "items": [dict(b) for b in body] + [{"t": "num", "k": rng.choice([4, -4, 8])}]}
         r = rng.random()
+        if rng.random() < 0.25:
+            # two absolute values whose contents differ only from the FIFTH significant digit on (|x - 10001| + |x - 10004|): two terms, not one
+            big = rng.choice([10001, 20001, 30002]) * Q
+            v0 = vs[0]
+            b1 = [{"t": "var", "k": Q, "n": v0}, {"t": "num", "k": -big}]
+            b2 = [{"t": "var", "k": Q, "n": v0}, {"t": "num", "k": -(big + rng.choice([1, 2, 3]) * Q)}]
+            lhs = [{"t": "abs", "k": k1, "items": b1}, {"t": "abs", "k": k2, "items": b2}]
+            sides = [lhs, [{"t": "num", "k": rng.choice([4, 5, 8]) * Q}]]
+            if op == ">=":
+                sides.reverse()
+            return {"op": op, "sides": sides}
         if r < 0.3:
             # a further occurrence that cancels the first one exactly: the running coefficient of the term passes through zero
             lhs.insert(1, {"t": "abs", "k": -k1, "items": [dict(b) for b in body]})
